@@ -130,7 +130,7 @@ void harness(void)
 		c->base.base.destroy = stdio_destroy;
 		c->base.base.copy = stdio_copy;
 		c->base.base.refcount = 1;
-		VERIF_ASSERT(!VERIF_SAME_OBJECT(c, o) && VERIF_RW_OK(c, OBJ_SIZE),
+		VERIF_ASSERT(C19_DISTINCT(c, o) && VERIF_RW_OK(c, OBJ_SIZE),
 			     C19_OB("fresh"));
 		VERIF_ASSERT(c->base.read_at == stdio_read_at &&
 			     c->base.write_at == stdio_write_at &&
